@@ -1,6 +1,7 @@
 -- Library root: every property module (so that `lake build GrafeoModel` checks all proofs).
 -- `Generated/*.lean` are regenerated from /repo by tools/extract.py and tools/extract_locks.py.
 import GrafeoModel.Props.C01
+import GrafeoModel.Props.C01SI
 import GrafeoModel.Props.C03
 import GrafeoModel.Props.C04
 import GrafeoModel.Props.C05
